@@ -1,1 +1,16 @@
 import Martian.Props.C08
+open Martian.Props.C08
+#print axioms dispatch_units
+#print axioms control_frames_identical
+#print axioms data_split_faithful
+#print axioms chunks_concat
+#print axioms accepted_is_image_of_calls
+#print axioms per_stream_order_and_content
+#print axioms header_blocks_leave_in_encode_order_counterexample
+#print axioms header_blocks_leave_in_encode_order_partial
+#print axioms safeRunB_sound
+#print axioms priority_flag_partial
+#print axioms priority_flag_counterexample
+#print axioms facts_relay_constants
+#print axioms facts_continued_headers_keep_end_stream
+#print axioms facts_preface_read_in_full
